@@ -236,10 +236,13 @@ impl FarmsMap {
 pub open spec fn is_farm_of(s: Storage, lp: Seq<char>, id: Seq<char>) -> bool {
     s.farms@.dom().contains(id) && s.farms@[id].lp_denom@ == lp
 }
+/// the (key-ordered, paginated) answer of the FARMS lp_denom index is a function of the state
+pub uninterp spec fn farms_by_lp_spec(s: Storage, lp: Seq<char>, start_after: Option<Str>, limit: Option<u32>) -> Seq<Farm>;
 #[verifier::external_body]
 pub fn get_farms_by_lp_denom(s: &Storage, lp_denom: &Str, start_after: Option<Str>, limit: Option<u32>) -> (r: Result<Vec<Farm>, StdError>)
     ensures match r {
-        Ok(v) => (forall|i: int| 0 <= i < v@.len() ==> is_farm_of(*s, lp_denom@, (#[trigger] v@[i]).identifier@) && s.farms@[v@[i].identifier@] == v@[i])
+        Ok(v) => v@ == farms_by_lp_spec(*s, lp_denom@, start_after, limit)
+            && (forall|i: int| 0 <= i < v@.len() ==> is_farm_of(*s, lp_denom@, (#[trigger] v@[i]).identifier@) && s.farms@[v@[i].identifier@] == v@[i])
             && (forall|i: int, j: int| 0 <= i < j < v@.len() ==> (#[trigger] v@[i]).identifier@ != (#[trigger] v@[j]).identifier@)
             && (limit is Some ==> v@.len() <= limit->Some_0)
             && (start_after is None && limit is Some && v@.len() < limit->Some_0 ==>
